@@ -115,35 +115,30 @@ theorem attachments_written (cpsOf : String → List Nat) (g : List (String × S
   · have he' : (atts.filterMap attSummary).isEmpty = false := by simpa using he
     rw [hemp, he']; simp only [Bool.false_eq_true, if_false, h2]; exact ⟨h1, h3, trivial, sortSpecs_perm _ _⟩
 
-/-- The `/EmbeddedFiles` name array (repair 186e86a) is non-decreasing in the sort key of the code, the
-**written form** `pydyf.String(F).data` of the keys, for every list of attachments. -/
-theorem embedded_files_data_sorted (cpsOf : String → List Nat) (files : List FileSpec) :
-    (sortSpecs cpsOf files).Perm files ∧ SortedBy (dataKey cpsOf) (sortSpecs cpsOf files) :=
+/-- The `/EmbeddedFiles` name array (repairs 186e86a, e909019) lists every written file once and is
+non-decreasing in the order that counts — the **bytes of the keys** as a PDF reader compares them
+(ISO 32000-1 7.9.6) — for every list of attachments and every file name.  Full strength: before e909019
+this held only for keys without parentheses, backslashes and bytes below `*`
+(`embedded_files_key_sorted_partial`, finding `embedded-files-written-form-order`). -/
+theorem embedded_files_key_sorted (cpsOf : String → List Nat) (files : List FileSpec) :
+    (sortSpecs cpsOf files).Perm files ∧ SortedBy (rawKey cpsOf) (sortSpecs cpsOf files) :=
   ⟨sortSpecs_perm cpsOf files, sortSpecs_sorted cpsOf files⟩
 
-/-- … and in the order that counts — the bytes of the keys as a reader compares them (ISO 32000-1
-7.9.6) — provided no key holds a parenthesis, a backslash or a byte below `*` (space, `!`, `#`, `&`, …):
-then the written form orders like the bytes.  Without the hypothesis the statement is false of the
-code: `Witness.C18.embedded_files_written_form_order`. -/
-theorem embedded_files_key_sorted_partial (cpsOf : String → List Nat) (files : List FileSpec)
-    (hplain : ∀ f ∈ files, ∀ b ∈ rawKey cpsOf f, PlainByte b) :
-    SortedBy (rawKey cpsOf) (sortSpecs cpsOf files) := by
-  apply SortedBy_congr (dataKey cpsOf) (rawKey cpsOf) _ _ (sortSpecs_sorted cpsOf files)
-  intro x hx y hy
-  have hx' := (sortSpecs_perm cpsOf files).mem_iff.mp hx
-  have hy' := (sortSpecs_perm cpsOf files).mem_iff.mp hy
-  exact fData_lt_plain _ _ (hplain x hx') (hplain y hy')
+/-- Attachments whose names do not sort before the first one leave it first: equal names keep their
+document order (the sort is stable). -/
+theorem embedded_files_stable (cpsOf : String → List Nat) (x : FileSpec) (rest : List FileSpec)
+    (h : ∀ y ∈ rest, Wp.Outline.nameLt (rawKey cpsOf y) (rawKey cpsOf x) = false) :
+    sortSpecs cpsOf (x :: rest) = x :: sortSpecs cpsOf rest := by
+  simp only [sortSpecs]
+  exact insertSpec_head cpsOf x _ (fun y hy => h y ((sortSpecs_perm cpsOf rest).mem_iff.mp hy))
 
-/-- `b.txt` then `a.txt` (the input of the repaired finding `embedded-files-not-sorted`): the hypothesis
-holds and the array is `a.txt`, `b.txt`. -/
-example : (∀ f ∈ [(⟨10, 11, "b.txt", "", 1, ""⟩ : FileSpec), ⟨12, 13, "a.txt", "", 1, ""⟩],
-      ∀ b ∈ rawKey (fun s => s.toList.map Char.toNat) f, PlainByte b) ∧
+/-- `b.txt` then `a.txt` (the input of the repaired finding `embedded-files-not-sorted`): the array is
+`a.txt`, `b.txt`; two files named `a.txt` stay in document order. -/
+example :
     (sortSpecs (fun s => s.toList.map Char.toNat) [⟨10, 11, "b.txt", "", 1, ""⟩, ⟨12, 13, "a.txt", "", 1, ""⟩]).map
-      (·.filename) = ["a.txt", "b.txt"] := by
-  refine ⟨?_, by decide⟩
-  intro f hf b hb
-  simp only [List.mem_cons, List.not_mem_nil, or_false] at hf
-  rcases hf with rfl | rfl <;> (revert b; simp only [rawKey, fKey]; decide)
+      (·.filename) = ["a.txt", "b.txt"] ∧
+    (sortSpecs (fun s => s.toList.map Char.toNat) [⟨10, 11, "a.txt", "", 1, ""⟩, ⟨12, 13, "a.txt", "", 2, ""⟩]).map
+      (·.spec) = [11, 13] := by decide
 
 /-- `<link rel=attachment>`: the title becomes the description; an element without `href` gives none. -/
 theorem meta_attachments (fetch : String → Att) (els : List LinkEl) :
